@@ -273,6 +273,10 @@ def classify(res):
             bounds.append(d + " @ " + f["loc"])
         elif "VERIF-" in d:
             model.append(d)
+        elif "kani_lib.c" in f["loc"] or "<builtin-library" in f["loc"]:
+            # deallocation / libc preconditions of Kani's C runtime model: safe Rust cannot
+            # violate them; seen spuriously for empty Vecs (DESIGN.md "tool artefacts")
+            model.append(d + " @ " + f["loc"])
         elif "/verif/" in f["loc"] or "verif_kani" in f["loc"] or "/shims/" in f["loc"]:
             model.append(d + " @ " + f["loc"])
         else:
